@@ -1,8 +1,115 @@
 import Driver.Util
-/-! Suite `own` (C14): the expected verdict of the ownership observations. -/
+import Gws.Model.Conc.Own
+/-! Suite `own` (C14).
+
+* `own trace <scenario>`: the model's path for the scenario, projected to what the pool hook of the
+  harness sees (Get/Put of `binaryPool` by incarnation, Put of the generic pools), printed in the
+  harness's canonical form; `spec` is `ok` iff the model's full event list for the scenario runs
+  without ownership violation from the state a freshly upgraded connection is in.
+* the observational cases (`write-apis`, `hold-messages`, `window-reuse`, `broadcaster`): the expected
+  verdict of pool poisoning is `owned-ok`. -/
 namespace Drv
+open Own
+
+/-- fixed locations of the scenarios: buffers of `binaryPool` are 0…49 -/
+def locK : Buf := 50      -- reassembly buffer / control payload (heap)
+def locM : Buf := 100     -- c.mu + compression window (cswPool, 2^10 bytes in the harness)
+def locD : Buf := 101     -- decompression window (dswPool, 2^12 bytes)
+def locS : Buf := 102     -- deflater scratch under dpsLocker
+def locZ : Buf := 103     -- flate.Writer: deflater.cpsWriter under cpsLocker, or a pooled bigDeflater
+def locRd : Buf := 104    -- bufio.Reader (brPool)
+def pidReader : Pid := 1
+def pidWriter : Pid := 2
+def pidBc : Pid := 3
+
+structure Scn where
+  side : String := "s"
+  evs : List Ev
+  kPooled : Bool := false     -- the reassembly buffer has a pool capacity
+  zPooled : Bool := false     -- the flate.Writer is a bigDeflater from bdPool (server WriteFile)
+  genericOnly : Bool := false -- the harness reports only the generic pools (teardown scenarios)
+  fresh : Bool := false       -- the scenario starts before the handshake: everything is still in its pool
+
+def Scn.cls (s : Scn) (b : Buf) : Class :=
+  if b < 50 then .bin
+  else if b = locK then (if s.kPooled then .heapPooled else .heap)
+  else if b = locM then .gen "win1024"
+  else if b = locD then .gen "win4096"
+  else if b = locZ then (if s.zPooled then .gen "deflater" else .mutex)
+  else if b = locRd then .gen "reader"
+  else .heap
+
+/-- the heap of a freshly upgraded, idle connection: window parked under `c.mu`, scratch and shared
+writer parked under their mutexes, reader and decompression window held by the read loop -/
+def Scn.init (s : Scn) : Heap :=
+  if s.fresh then { cell := fun b => if b = locS ∨ b = locZ then { own := .guarded } else {}, lent := fun _ => none } else
+  { cell := fun b =>
+      if b = locM ∨ b = locS then { own := .guarded }
+      else if b = locZ then { own := if s.zPooled then .pool else .guarded }
+      else if b = locD ∨ b = locRd then { own := .lib pidReader }
+      else {}
+    lent := fun _ => none }
+
+def bcScn (acts : List BAct) : Option Scn :=
+  ((BC.init pidBc 0 0 1).run acts).map fun s => { evs := s.trace }
+
+/-- a writer parked in the transport (holding `c.mu`) while the read loop ends -/
+def busyTeardown : List Ev :=
+  let w := writeFrame true true false pidWriter 0 locM locZ 0
+  let i := w.length - 5 -- up to and including the transport write `libRead f`
+  w.take i ++ readLoopEnd false pidReader locRd locM (some locD) ++ w.drop i
+
+def scenario : String → Option Scn
+  | "single-plain" => some { evs := readSingle false true true pidReader 0 1 locS none }
+  | "single-compressed" => some { evs := readSingle true true true pidReader 0 1 locS (some locD) }
+  | "single-plain-hold" => some { evs := readSingle false true false pidReader 0 1 locS none ++ [.appClose 0] }
+  | "single-compressed-hold" => some { evs := readSingle true true false pidReader 0 1 locS (some locD) ++ [.appClose 1] }
+  | "single-plain-client" => some { side := "c", evs := readSingle false false true pidReader 0 1 locS none }
+  | "single-compressed-client" => some { side := "c", evs := readSingle true false true pidReader 0 1 locS (some locD) }
+  | "fragments-3" => some { evs := readFragments false true true pidReader locK [0, 1] 2 3 locS none }
+  | "fragments-pooled" => some { kPooled := true, evs := readFragments false true true pidReader locK [0] 1 2 locS none }
+  | "fragments-compressed" => some { evs := readFragments true true true pidReader locK [0, 1] 2 3 locS (some locD) }
+  | "ping" => some { evs := readControl true pidReader locK }
+  | "write-server" => some { evs := writeFrame false false false pidWriter 0 locM locZ 0 }
+  | "write-client" => some { side := "c", evs := writeFrame false false true pidWriter 0 locM locZ 0 }
+  | "write-ping" => some { evs := writeFrame false false false pidWriter 0 locM locZ 0 }
+  | "write-compressed" => some { evs := writeFrame true true false pidWriter 0 locM locZ 0 }
+  | "write-compressed-client" => some { side := "c", evs := writeFrame true true true pidWriter 0 locM locZ 0 }
+  | "writefile-plain-3" => some { evs := writeFilePlain false pidWriter locM 0 [1, 2, 3] }
+  | "writefile-plain-1" => some { evs := writeFilePlain false pidWriter locM 0 [1] }
+  | "writefile-compressed" =>
+    some { zPooled := true, evs := writeFileCompressed true false false pidWriter locM locZ 0 1 [] 2 }
+  | "writefile-compressed-client" =>
+    some { side := "c", evs := writeFileCompressed true true false pidWriter locM locZ 0 1 [] 2 }
+  | "writefile-compressed-big" =>
+    some { zPooled := true, evs := writeFileCompressed true false true pidWriter locM locZ 0 1 [(2, 3), (4, 5), (6, 7)] 8 }
+  | "broadcast-2" => bcScn [.bcast 0 false, .bcast 1 false, .sendDone 0, .sendDone 1, .close]
+  | "broadcast-2-early" => bcScn [.bcast 0 false, .bcast 1 false, .close, .sendDone 0, .sendDone 1]
+  | "broadcast-2-mixed" => bcScn [.bcast 0 false, .bcast 1 true, .sendDone 0, .sendDone 1, .close]
+  | "upgrade" => some { fresh := true, evs := upgradeServer pidReader 0 locRd locM (some locD) }
+  | "write-close" =>
+    some { evs := writeClose false pidWriter locM 0 1 ++ readLoopEnd true pidReader locRd locM (some locD) }
+  | "teardown-idle" => some { genericOnly := true, evs := readLoopEnd true pidReader locRd locM (some locD) }
+  | "teardown-busy" => some { genericOnly := true, evs := busyTeardown }
+  | _ => none
+
+def runOwnTrace (name : String) : Res :=
+  match scenario name with
+  | none => bad "own-scenario"
+  | some s =>
+    let full := project s.side s.cls s.evs
+    let out :=
+      if s.genericOnly then
+        let keep := (full.splitOn ",").filter fun t => t ≠ "-" ∧ (t.splitOn ":b").length = 1
+        if keep.isEmpty then "-" else ",".intercalate keep
+      else full
+    { out := out
+      spec := if (run s.init s.evs).isSome then "ok" else "bad:ownership-violation-in-model-path"
+      tags := "trace-" ++ name }
+
 def runOwn (args : List String) : Res :=
   match args with
+  | "trace" :: name :: _ => runOwnTrace name
   | k :: _ => if ["write-apis", "hold-messages", "window-reuse", "broadcaster"].contains k then { out := "owned-ok", tags := k } else bad "own-args"
   | _ => bad "own-args"
 def runRacy (_args : List String) : Res := { out := "no-race", tags := "racy" }
